@@ -8,6 +8,7 @@ import (
 	"errors"
 	"fmt"
 	"math/big"
+	"reflect"
 	"strconv"
 	"strings"
 
@@ -24,14 +25,83 @@ import (
 	"verifharness/internal/vh"
 )
 
+// the harness' own generators: flow (TokenCalculateStrategy 7, ControlBehavior 9), circuit breaker Strategy 7.
+// genMode says what they do at the moment: "ok" builds a controller, "fail" returns an error, "panic" panics.
+const (
+	customTcs = flow.TokenCalculateStrategy(7)
+	customCb  = flow.ControlBehavior(9)
+	customCbS = cb.Strategy(7)
+)
+
+// passBreaker is the breaker the custom generator yields: always closed.
+type passBreaker struct{ r *cb.Rule }
+
+func (b *passBreaker) BoundRule() *cb.Rule            { return b.r }
+func (b *passBreaker) BoundStat() interface{}         { return nil }
+func (b *passBreaker) TryPass(*base.EntryContext) bool { return true }
+func (b *passBreaker) CurrentState() cb.State         { return cb.Closed }
+func (b *passBreaker) OnRequestComplete(uint64, error) {}
+
+// mkFlowGen builds a flow.TrafficControllerGenFunc although its second parameter type (*standaloneStatistic) is
+// unexported: the type argument is inferred from a (nil) value of the exported function type.
+func mkFlowGen[S any](_ func(*flow.Rule, S) (*flow.TrafficShapingController, error), it *Interp) func(*flow.Rule, S) (*flow.TrafficShapingController, error) {
+	return func(r *flow.Rule, s S) (*flow.TrafficShapingController, error) {
+		switch it.genMode["flow"] {
+		case "fail":
+			return nil, errors.New("custom generator fails")
+		case "panic":
+			panic("custom generator panics")
+		}
+		// a controller bound to a zero statistic (the probes never send traffic to a resource with such a rule)
+		st := reflect.New(reflect.TypeOf(s).Elem())
+		out := reflect.ValueOf(flow.NewTrafficShapingController).Call([]reflect.Value{reflect.ValueOf(r), st})
+		return out[0].Interface().(*flow.TrafficShapingController), nil
+	}
+}
+
+func registerFlowGen(it *Interp) error {
+	var genType flow.TrafficControllerGenFunc
+	return flow.SetTrafficShapingGenerator(customTcs, customCb, mkFlowGen(genType, it))
+}
+
+// reuseSlice copies rs into the slice kept for key (same backing array when it is large enough), as a caller does who
+// fills one slice again for every load of a resource.
+func reuseSlice[T any](it *Interp, key string, rs []T) []T {
+	if !it.reuse {
+		return rs
+	}
+	old, _ := it.slices[key].([]T)
+	out := append(old[:0], rs...)
+	it.slices[key] = out
+	return out
+}
+
 type Interp struct {
+	genMode map[string]string
+	reuse   bool
+	slices  map[string]interface{} // loadresx: one rule slice per (module, resource), reused by consecutive loads
 	clk *vh.Clock
 	reg map[string][]interface{} // per module: controller objects in the order ctrlhist first showed them
 }
 
 func New() vh.Interp {
 	vh.Silence()
-	return &Interp{clk: vh.NewClock(1_900_000_000_000)}
+	it := &Interp{clk: vh.NewClock(1_900_000_000_000), genMode: map[string]string{}}
+	if err := registerFlowGen(it); err != nil {
+		panic(err)
+	}
+	if err := cb.SetCircuitBreakerGenerator(customCbS, func(r *cb.Rule, _ interface{}) (cb.CircuitBreaker, error) {
+		switch it.genMode["cb"] {
+		case "fail":
+			return nil, errors.New("custom generator fails")
+		case "panic":
+			panic("custom generator panics")
+		}
+		return &passBreaker{r}, nil
+	}); err != nil {
+		panic(err)
+	}
+	return it
 }
 
 const idleMs = 100_000
@@ -39,6 +109,8 @@ const idleMs = 100_000
 func (it *Interp) idle() { it.clk.Ns += idleMs * 1e6 }
 
 func (it *Interp) Reset() {
+	it.genMode = map[string]string{}
+	it.slices = map[string]interface{}{}
 	it.reg = map[string][]interface{}{}
 	_ = flow.ClearRules()
 	_ = isolation.ClearRules()
@@ -249,6 +321,13 @@ func (it *Interp) Step(t []string, op string) string {
 		return it.load(t[1], "", ruleToks(t, 2), false)
 	case "loadres":
 		return it.load(t[1], str(t[2]), ruleToks(t, 3), true)
+	case "loadresx":
+		it.reuse = true
+		defer func() { it.reuse = false }()
+		return it.load(t[1], str(t[2]), ruleToks(t, 3), true)
+	case "genmode":
+		it.genMode[t[1]] = t[2]
+		return ""
 	case "clear":
 		switch t[1] {
 		case "flow":
@@ -405,7 +484,7 @@ func (it *Interp) load(mod, res string, toks []string, perRes bool) string {
 			}
 		}
 		if perRes {
-			return outcome(flow.LoadRulesOfResource(res, rs))
+			return outcome(flow.LoadRulesOfResource(res, reuseSlice(it, "flow/"+res, rs)))
 		}
 		return outcome(flow.LoadRules(rs))
 	case "iso":
@@ -418,7 +497,7 @@ func (it *Interp) load(mod, res string, toks []string, perRes bool) string {
 			}
 		}
 		if perRes {
-			return outcome(isolation.LoadRulesOfResource(res, rs))
+			return outcome(isolation.LoadRulesOfResource(res, reuseSlice(it, "iso/"+res, rs)))
 		}
 		return outcome(isolation.LoadRules(rs))
 	case "hot":
@@ -431,7 +510,7 @@ func (it *Interp) load(mod, res string, toks []string, perRes bool) string {
 			}
 		}
 		if perRes {
-			return outcome(hotspot.LoadRulesOfResource(res, rs))
+			return outcome(hotspot.LoadRulesOfResource(res, reuseSlice(it, "hot/"+res, rs)))
 		}
 		return outcome(hotspot.LoadRules(rs))
 	case "cb":
@@ -444,7 +523,7 @@ func (it *Interp) load(mod, res string, toks []string, perRes bool) string {
 			}
 		}
 		if perRes {
-			return outcome(cb.LoadRulesOfResource(res, rs))
+			return outcome(cb.LoadRulesOfResource(res, reuseSlice(it, "cb/"+res, rs)))
 		}
 		return outcome(cb.LoadRules(rs))
 	case "sys":
